@@ -161,6 +161,7 @@ def gen_stream(rng, native):
             grid, info = c02.wf_grid(rng, native)
             grid = segment_safe(rng, grid, info)
             grid = c08.inject_ns(rng, grid, info, native)
+            grid = c08.one_zone_per_column(grid, info)
             grid = nasty_header(rng, grid, info, kinds)
             if any(k == "datetime" for k in info["kinds"]):
                 kinds.append("ns datetime" if any(_is_ns(c) for r in grid[2:] for c in r) else "us datetime")
@@ -202,9 +203,9 @@ def gen_stream(rng, native):
     return rows, tables, kinds
 
 
-ROW_LADDER_QUICK = [64, 255, 256, 257, 1024, 1025, 2048, 4097, 8193]
+ROW_LADDER_QUICK = [64, 255, 256, 257, 1025, 4097, 8193]
 ROW_LADDER_FULL = [60, 63, 64, 65, 127, 128, 129, 255, 256, 257, 1000, 1023, 1024, 1025, 2047, 2048, 2049, 3072, 4095, 4096,
-                   4097, 8191, 8192, 8193, 20000]
+                   4097, 8191, 8192, 8193]
 
 
 def ladder_stream(rng, n_row, native):
@@ -264,10 +265,12 @@ def gen_filter(rng, tables):
     return bc.py_filter(spec), spec
 
 
-def csv_safe(rows):
+def csv_safe(rows, sep=SEP):
+    other = "," if sep != "," else ";"
+
     def cell(c):
         s = c if isinstance(c, str) else str(c)
-        return s.replace(SEP, ",").replace("\n", " ").replace("\r", " ")
+        return s.replace(sep, other).replace("\n", " ").replace("\r", " ")
     return [[cell(c) for c in r] for r in rows]
 
 
@@ -305,29 +308,40 @@ def make_fixer_arg(spec):
             self.strict_types = strict_types
             self.stop_on_errors = 1 if stop else 0
             self._dbg = False
+            self._called_from_test = True          # keeps report() from printing
     return Configured if spec["as"] == "class" else Configured()
 
 
-def read_blocks(api, src, to, filt, fixer_spec=None):
+def read_blocks(api, src, to, filt, plan=None, issues=None):
     """-> ("ok", [(BlockType name, value)]) | ("exc", class name)"""
     try:
         with warnings.catch_warnings():
             warnings.simplefilter("ignore")
-            it = make_reader(api, src, to, filt, fixer_spec)
+            it = make_reader(api, src, to, filt, plan, issues)
             return "ok", [(bt.name, v) for bt, v in it]
     except Exception as e:  # noqa: BLE001
         return "exc", type(e).__name__
 
 
-def make_reader(api, src, to, filt, fixer_spec=None):
-    """the reader generator, not yet started (every reader gets its own fixer object)"""
+def make_reader(api, src, to, filt, plan=None, issues=None):
+    """the reader generator, not yet started.  plan: "fixer" (every reader gets its own fixer object), "tracker":
+    "collecting" (an issue tracker that does not raise; its issue list is put into issues[to]), "sep" (read_csv),
+    "path" (src is a file path for read_csv), "origin" (read_csv from a stream)"""
     from pdtable.io.parsers.blocks import parse_blocks
     from pdtable import read_csv, read_excel
-    kw = {} if not fixer_spec else {"fixer": make_fixer_arg(fixer_spec)}
+    plan = plan or {}
+    kw = {} if not plan.get("fixer") else {"fixer": make_fixer_arg(plan["fixer"])}
+    if plan.get("tracker") == "collecting":
+        tr = bc.collecting_tracker()
+        kw["issue_tracker"] = tr
+        if issues is not None:
+            issues[to] = tr.issues
     if api == "parse_blocks":
         return parse_blocks(iter([list(r) for r in src]), to=to, filter=filt, **kw)
     if api == "read_csv":
-        return read_csv(io.StringIO(src), sep=SEP, to=to, filter=filt, **kw)
+        if plan.get("origin") and not plan.get("path"):
+            kw["origin"] = plan["origin"]
+        return read_csv(src if plan.get("path") else io.StringIO(src), sep=plan.get("sep", SEP), to=to, filter=filt, **kw)
     return read_excel(src, to=to, filter=filt, **kw)
 
 
@@ -339,9 +353,11 @@ def read_forms(api, src, filt, plan):
                                                        k1 blocks of the first reader, then the second is started and
                                                        read for k2 blocks, then the third is started; then round-robin
     A reader must deliver its own form whatever other readers are alive."""
-    fx = plan.get("fixer")
+    issues = {}
     if plan["mode"] == "sequential":
-        return {f: read_blocks(api, src, f, filt, fx) for f in FORMS}
+        res = {f: read_blocks(api, src, f, filt, plan, issues) for f in FORMS}
+        res["_issues"] = {f: len(issues.get(f, [])) for f in FORMS}
+        return res
     order = plan["order"]
     res = {f: ["ok", []] for f in FORMS}
     gens, done = {}, set()
@@ -353,7 +369,7 @@ def read_forms(api, src, filt, plan):
             with warnings.catch_warnings():
                 warnings.simplefilter("ignore")
                 if f not in gens:
-                    gens[f] = make_reader(api, src, f, filt, fx)
+                    gens[f] = make_reader(api, src, f, filt, plan, issues)
                 bt, v = next(gens[f])
             res[f][1].append((bt.name, v))
         except StopIteration:
@@ -376,7 +392,15 @@ def read_forms(api, src, filt, plan):
                 g.close()
             except Exception:  # noqa: BLE001
                 pass
-    return {f: tuple(res[f]) for f in FORMS}
+    final = {f: tuple(res[f]) for f in FORMS}
+    final["_issues"] = {f: len(issues.get(f, [])) for f in FORMS}
+    return final
+
+
+def locale_encoding():
+    """read_csv opens a path with the platform default encoding: the file is written in that encoding"""
+    import locale
+    return locale.getpreferredencoding(False)
 
 
 def gen_plan(rng):
@@ -393,6 +417,14 @@ def gen_plan(rng):
     if rng.random() < 0.4:
         plan["fixer"] = {"strict_types": rng.random() < 0.4, "stop": rng.random() < 0.6,
                          "as": rng.choice(["class", "instance"])}
+    if rng.random() < 0.12:
+        plan["tracker"] = "collecting"            # an issue tracker that records instead of raising
+    if rng.random() < 0.3:
+        plan["sep"] = rng.choice([",", "\t", "|", "~"])       # read_csv only
+    if rng.random() < 0.2:
+        plan["path"] = True                       # read_csv from a file path instead of a text stream
+    elif rng.random() < 0.2:
+        plan["origin"] = "some origin"
     return plan
 
 
@@ -522,21 +554,18 @@ def oracle(out, case, api, sheets, tables, filt_py, results):
             out.fail(f"{api}: a cellgrid table is not the raw rows of its block", dict(case, table=name),
                      {"origin": origin, "cellgrid": grid_to_json(vc)}, {"origin": start, "rows": grid_to_json(raw)}, key="cellgrid_raw")
             return
-        # the destinations of both forms are what the reader's rule gives for the destination cell: strip, then split
-        # at single blanks (an empty name between two blanks included)
-        dcell = raw[1][0] if len(raw) > 1 and len(raw[1]) > 0 else None
-        if isinstance(dcell, str):
-            want = set(dcell.strip().split(" "))
-            got = {"pdtable": set(vp.metadata.destinations), "jsondata": set(vj.get("destinations", {}))}
-            if got["pdtable"] != want or got["jsondata"] != want:
-                out.fail(f"{api}: the destinations of a table are not those of its destination cell", dict(case, table=name),
-                         {k: sorted(v) for k, v in got.items()}, sorted(want), key="destinations")
-                return
-        # the units are those of the header rows, whatever fixer configuration the reader was given
-        if units is not None and (list(vp.units) != list(units) or
-                                  [c["unit"] for c in vj["columns"].values()] != list(units)):
-            out.fail(f"{api}: the units of a table are not those of its header rows", dict(case, table=name),
-                     {"pdtable": list(vp.units), "jsondata": [c["unit"] for c in vj["columns"].values()]}, list(units), key="units")
+        # the header of the two parsed forms agrees: the Table's destination set is the key set of the jsondata
+        # destinations, the Table's units are the jsondata units in column order (what the header rows *mean* is
+        # C02's / C13's subject and part of the model comparison, not of this oracle)
+        got_d = {"pdtable": set(vp.metadata.destinations), "jsondata": set(vj.get("destinations", {}))}
+        if got_d["pdtable"] != got_d["jsondata"]:
+            out.fail(f"{api}: the destinations of the pdtable and the jsondata form of a table differ", dict(case, table=name),
+                     sorted(got_d["jsondata"]), sorted(got_d["pdtable"]), key="destinations")
+            return
+        got_u = {"pdtable": list(vp.units), "jsondata": [c.get("unit") for c in vj.get("columns", {}).values()]}
+        if got_u["pdtable"] != got_u["jsondata"]:
+            out.fail(f"{api}: the units of the pdtable and the jsondata form of a table differ", dict(case, table=name),
+                     got_u["jsondata"], got_u["pdtable"], key="units")
             return
         # jsondata == table_to_json_data(pdtable table)
         try:
@@ -644,16 +673,30 @@ class RecordingStream(io.StringIO):
         return super().readlines(*a)
 
 
-def check_unknown_form(out, case, rows, text, xlsx, to, ops=None, pend=None):
+def check_unknown_form(out, case, rows, text, xlsx, to, ops=None, pend=None, rng=None, sep=SEP):
     from pdtable.io.parsers.blocks import parse_blocks
-    from pdtable import read_csv, read_excel
+    from pdtable import read_csv, read_excel, ParseFixer
+    # the other arguments must not matter: a filter, a fixer, an issue tracker that does not raise
+    kw, given = {}, []
+    if rng is not None:
+        if rng.random() < 0.5:
+            kw["filter"] = rng.choice([lambda bt, name: True, lambda bt, name: False, lambda bt, name: bt.name == "TABLE"])
+            given.append("filter")
+        if rng.random() < 0.3:
+            kw["fixer"] = rng.choice([ParseFixer, ParseFixer()])
+            given.append("fixer")
+        if rng.random() < 0.3:
+            kw["issue_tracker"] = bc.collecting_tracker()
+            given.append("issue_tracker")
+    case = dict(case, given=given)
+    out.count("unknown form probed with: " + ("+".join(given) or "no other argument"))
     rec = RecordingIter([list(r) for r in rows])
-    trials = [("parse_blocks", lambda: parse_blocks(rec, to=to), lambda: rec.calls)]
+    trials = [("parse_blocks", lambda: parse_blocks(rec, to=to, **kw), lambda: rec.calls)]
     if text is not None:
         st = RecordingStream(text)
-        trials.append(("read_csv", lambda: read_csv(st, sep=SEP, to=to), lambda: st.reads))
+        trials.append(("read_csv", lambda: read_csv(st, sep=sep, to=to, **kw), lambda: st.reads))
     if xlsx is not None:
-        trials.append(("read_excel", lambda: read_excel(xlsx, to=to), lambda: 0))
+        trials.append(("read_excel", lambda: read_excel(xlsx, to=to, **kw), lambda: 0))
     for api, make, touched in trials:
         try:
             with warnings.catch_warnings():
@@ -689,7 +732,7 @@ def run(tier, seed, model_ok, translator, search=False):
                 "whitespace, column names differing only in letter case, padding, comments after the names) interleaved with metadata, directives, "
                 "template rows, comments, late `key:` rows and blank lines with payload, with and without blank separators, "
                 "25 % with a read filter; 40 % with the reader's fixer argument given (a ParseFixer subclass or an instance of it, "
-                "strict_types False / True x stop_on_errors 0 / 1; the units must be those of the header rows); the three readers of a case are consumed one after the other (30 %), in lock-step (40 %) "
+                "strict_types False / True x stop_on_errors 0 / 1); the three readers of a case are consumed one after the other (30 %), in lock-step (40 %) "
                 "or staggered (a reader started after k blocks of another, 30 %); plus a row-count ladder (a table of 64 … 8193 rows "
                 "with missing numbers in every quick run, 60 … 20000 in thorough); each through parse_blocks (text / native cells), read_csv (StringIO; half of the texts "
                 "without a final newline) and read_excel (openpyxl workbook in a scratch dir; a third split into two "
@@ -697,8 +740,8 @@ def run(tier, seed, model_ok, translator, search=False):
                 "recording iterator / stream. Non-trivial: at least one table with a column and a row; distinct by rows.")
     rng = make_rng(seed, "C07")
     thorough = tier == "thorough" or search
-    n = 14000 if thorough else 700
-    n_x = 1200 if thorough else 90
+    n = 6000 if thorough else 600
+    n_x = 500 if thorough else 80
     ops, pend = [], []
     tmp = tempfile.mkdtemp(prefix="c07-")
     try:
@@ -723,16 +766,24 @@ def run(tier, seed, model_ok, translator, search=False):
             fixer_kind = "strict" if not fx or fx["stop"] else "lenient"
             text = xlsx = None
             tables4 = [(0, st, k, nm, un) for st, k, nm, un in tables]
+            if api != "read_csv":
+                plan.pop("sep", None), plan.pop("path", None), plan.pop("origin", None)
             if api == "read_csv":
-                rows = csv_safe(rows)
+                sep = plan.get("sep", SEP)
+                rows = csv_safe(rows, sep)
                 # half of the texts do not end with a newline (the last line is then read without one)
-                text = "\n".join(SEP.join(r) for r in rows) + ("\n" if rng.random() < 0.5 else "")
+                text = "\n".join(sep.join(r) for r in rows) + ("\n" if rng.random() < 0.5 else "")
                 out.count("csv:" + ("final newline" if text.endswith("\n") else "no final newline"))
                 lines = text.split("\n")
                 if lines[-1] == "":
                     lines.pop()          # iterating a text file yields nothing after the last newline
-                sheets = [[line.split(SEP) for line in lines]]
+                sheets = [[line.split(sep) for line in lines]]
                 src = text
+                if plan.get("path"):
+                    src = os.path.join(tmp, f"c{i}.csv")
+                    with open(src, "w", encoding=locale_encoding(), newline="") as fh:
+                        fh.write(text)
+                    case_text = text
             elif api == "read_excel":
                 rows = excel_safe(rows)
                 xlsx = os.path.join(tmp, f"w{i}.xlsx")
@@ -762,22 +813,28 @@ def run(tier, seed, model_ok, translator, search=False):
                 out.count("el:" + k)
             if filt_spec is not None:
                 out.count("with filter")
-            if results["pdtable"][0] == "ok":
+            for k_ in ("tracker", "sep", "path", "origin"):
+                if plan.get(k_):
+                    out.count("reader given %s" % ("a collecting issue tracker" if k_ == "tracker" else
+                                                   "another separator" if k_ == "sep" else "a file path" if k_ == "path" else "an origin"))
+            if results["pdtable"][0] == "ok" and not results["_issues"]["pdtable"]:
                 out.count("pdtable read ok")
                 oracle(out, case, api, sheets, tables4, filt_py, results)
+            elif results["pdtable"][0] == "ok":
+                out.count("pdtable read reports issues to the collecting tracker (not a successful read)")
             else:
                 out.count("pdtable read fails:" + results["pdtable"][1])
             if model_ok:
                 for f in FORMS:
                     for sh in sheets:
-                        op = bc.model_op(sh, to=f, filt=filt_spec, tracker="raising", fixer_kind=fixer_kind)
+                        op = bc.model_op(sh, to=f, filt=filt_spec, tracker=plan.get("tracker", "raising"), fixer_kind=fixer_kind)
                         op["op"] = "parse_blocks_json"
                         ops.append(op)
                     pend.append((f"{api}(to={f})", case, canon_impl(*results[f]), len(sheets)))
-            if i % 10 == 0:
+            if i % 6 == 0 and i < n:
                 check_unknown_form(out, {"seed": seed, "index": i}, seen, text, xlsx,
                                    rng.choice(["bogus", "", "PDTABLE", "json", None, 5, "cellgrid ", "Pdtable", "jsondata\n"]),
-                                   ops if model_ok else None, pend)
+                                   ops if model_ok else None, pend, rng=rng, sep=plan.get("sep", SEP))
         # forms the source knows beyond the three of the property (translator diff): they must be rejected as unknown
         try:
             extra = [k for k, _ in (translator or {}).get("values", {}).get("table_handlers", {}).get("pairs", []) if k not in FORMS]
@@ -844,18 +901,32 @@ def replay(rep):
         filt_py = bc.py_filter(inp.get("filter"))
         tables = [tuple(t) if len(t) >= 4 and isinstance(t[3], str) else (0,) + tuple(t) for t in inp.get("tables", [])]
         sheets = [rows] if "sheets" not in inp else [c02.common_rows_from_json(sh) for sh in inp["sheets"]]
+        sheets_in = [list(sh) for sh in sheets]
         tmp = tempfile.mkdtemp(prefix="c07r-")
         try:
+            plan_r = inp.get("plan") or {"mode": "sequential"}
             if api == "read_csv":
-                src = "".join(SEP.join(r) + "\n" for r in rows)
+                src = "".join(plan_r.get("sep", SEP).join(r) + "\n" for r in rows)
+                if plan_r.get("path"):
+                    path = os.path.join(tmp, "r.csv")
+                    with open(path, "w", encoding=locale_encoding(), newline="") as fh:
+                        fh.write(src)
+                    src = path
             elif api == "read_excel":
                 src = os.path.join(tmp, "w.xlsx")
                 sheets = write_workbook(src, sheets)
             else:
                 src = rows
-            results = read_forms(api, src, filt_py, inp.get("plan") or {"mode": "sequential"})
-            if results["pdtable"][0] == "ok":
+            results = read_forms(api, src, filt_py, plan_r)
+            if results["pdtable"][0] == "ok" and not results["_issues"]["pdtable"]:
                 oracle(out, dict(inp), api, sheets, tables, filt_py, results)
+            # the other routing of the same rows: what the reader was fed, handed to parse_blocks directly (a workbook or
+            # a text cannot always be rebuilt cell for cell — openpyxl reads 1.797e308 back as inf and cannot write inf)
+            if api != "parse_blocks" and len(sheets_in) == 1 and not out.failures:
+                plan_p = {k: v for k, v in plan_r.items() if k not in ("sep", "path", "origin")}
+                results = read_forms("parse_blocks", sheets_in[0], filt_py, plan_p)
+                if results["pdtable"][0] == "ok" and not results["_issues"]["pdtable"]:
+                    oracle(out, dict(inp), "parse_blocks", sheets_in, tables, filt_py, results)
         finally:
             shutil.rmtree(tmp, ignore_errors=True)
     if out.failures:
